@@ -21,5 +21,35 @@ Theorem C07_extract_positions : forall (A : Type) (kv : list (N * A)),
   map fst (sort_kv kv) = map N.of_nat (seq 0 (List.length kv)).
 Proof. exact sort_kv_positions. Qed.
 
+(* EXTRACTION: RPUs are collected in decode order and written sorted by the presentation number
+   of their frames: whenever those numbers are a permutation of 0..n-1 (C07_period_numbering),
+   the RPU of the frame with decoded index d comes out at position pres(d) - the k-th RPU of the
+   file is the RPU of the frame displayed k-th - and none is lost *)
+Theorem C07_extract_order_correct : forall (A : Type) (fs : list frame) (rpus out : list A),
+  extract_order fs rpus = Ok out ->
+  Permutation (map (fun i => pres_of fs (N.of_nat i)) (seq 0 (List.length rpus))) (map N.of_nat (seq 0 (List.length rpus))) ->
+  List.length out = List.length rpus /\
+  forall d r, nth_error rpus d = Some r -> nth_error out (N.to_nat (pres_of fs (N.of_nat d))) = Some r.
+Proof. exact @extract_order_correct. Qed.
+
+(* INJECTION: a flushed frame gets the RPU at its presentation position of the input list, placed
+   after every NAL of the frame except a trailing run of EOS / EOB NALs (and after the AUD written
+   for the frame); the frame's other NALs keep their bytes and order; what was written before is
+   untouched *)
+Theorem C07_flush_frame_correct : forall p io fs rpus s s' f,
+  flush_frame p io fs rpus false s = Ok s' ->
+  frame_of_dec fs (fb_number s) = Some f ->
+  exists x d pre post,
+    nth_error rpus (N.to_nat (f_pres f)) = Some x /\ write_hevc_unspec62_nalu p src_sw x = Ok d /\
+    (if io_no_add_aud io then fb_nals s else (35, aud_for f) :: fb_nals s) = pre ++ post /\
+    pre <> [] /\
+    Forall (fun n => is_eos (fst n) = true) post /\
+    (exists y t, pre = t ++ [y] /\ is_eos (fst y) = false) /\
+    map snd (skipn (List.length (written s)) (written s')) = map snd (pre ++ (62, d) :: post) /\
+    firstn (List.length (written s)) (written s') = written s.
+Proof. exact flush_frame_correct. Qed.
+
 Print Assumptions C07_period_numbering.
+Print Assumptions C07_extract_order_correct.
+Print Assumptions C07_flush_frame_correct.
 Print Assumptions C07_extract_positions.
